@@ -3,8 +3,9 @@ From Hermes Require Import Model.BusLog Proofs.BusLog.
 
 (** Every state reachable by any interleaving of producer and consumer operations
     satisfies the log invariant: consecutive ids, last id = sequence, timestamps in
-    insertion order. *)
-Theorem C18_invariant_reachable : forall ops st,
+    insertion order - as long as the producer's clock never steps back ([BBack]); the
+    retention theorem [C18_purge_only_old] below holds per event without that hypothesis. *)
+Theorem C18_invariant_reachable : forall ops st, Forall monotone_clock ops ->
   inv (s_bus st) (s_now st) -> inv (s_bus (bfinal st ops)) (s_now (bfinal st ops)).
 Proof. exact inv_reachable. Qed.
 Print Assumptions C18_invariant_reachable.
@@ -49,6 +50,12 @@ Theorem C18_purge_only_old : forall limit b r,
   In r (b_rows (purge limit b)) <-> In r (b_rows b) /\ limit <= r_ts r.
 Proof. exact purge_only_old. Qed.
 Print Assumptions C18_purge_only_old.
+
+(** clock stepped back: the stale event stored between two fresh ones is the only one purged *)
+Example C18_purge_per_event :
+  brun bstate0 [BOpen 100; BSend 1; BBack 300; BSend 2; BAge 300; BSend 3; BOpen 100; BSeekBegin; BIter]
+  = [ONone; ONone; ONone; ONone; ONone; ONone; ONone; ONone; OIter [(1, 1); (3, 3)]].
+Proof. vm_compute. reflexivity. Qed.
 
 Example C18_nonvacuous :
   brun bstate0 [BOpen 100; BSend 1; BSend 2; BAge 113; BSend 3; BOpen 100; BSeek 1; BSeek 3; BIter; BSend 4; BIter]
